@@ -207,7 +207,7 @@ class Legacy(object):
     def fresh(self):
         return {'own.scriptSig': 'orig', 'others.scriptSig': 'orig', 'own.nSequence': 'orig', 'others.nSequence': 'orig',
                 'own.prevout': 'orig', 'others.prevout': 'orig', 'inputs': 'all', 'outputs': 'all', 'wit': 'orig',
-                'copied': False, 'tmp': {}, 'vars': {}}
+                'nVersion': 'orig', 'nLockTime': 'orig', 'copied': False, 'tmp': {}, 'vars': {}}
 
     def interpret(self, path):
         """-> (state, result, problem). result: ('const-one', err) | ('digest', layout) | None"""
@@ -265,6 +265,9 @@ class Legacy(object):
                     if v == b'':
                         S['own.scriptSig'] = S['others.scriptSig'] = 'blank'
                         continue
+                    if isinstance(v, bytes):
+                        S['own.scriptSig'] = S['others.scriptSig'] = 'set to %r' % (v,)
+                        continue
                     return S, None, 'scriptSig blanked with `%s`' % norm(b.value)
             # txtmp.vin[inIdx].scriptSig = FindAndDelete(script, CScript([OP_CODESEPARATOR]))
             if isinstance(s, ast.Assign) and norm(s.targets[0]) == '%s.vin[%s].scriptSig' % (sc, idx):
@@ -284,7 +287,11 @@ class Legacy(object):
                     guard = norm(b.test)
                     b = b.body[0]
                 if isinstance(b, ast.Assign) and norm(b.targets[0]) == '%s.vin[%s].nSequence' % (sc, i) and repo.fold(b.value, fi.module) == 0:
-                    if guard in ('%s != %s' % (i, idx), '%s != %s' % (idx, i), 'not %s == %s' % (i, idx)):
+                    if S['inputs'] == 'list' and guard is not None:
+                        # the list was rebuilt (ANYONECANPAY): the signed input now sits at position 0, the guard still
+                        # compares with its original index
+                        S['own.nSequence'] = 'zero whenever inIdx > 0 (positional index used after the input list was pruned)'
+                    elif guard in ('%s != %s' % (i, idx), '%s != %s' % (idx, i), 'not %s == %s' % (i, idx)):
                         S['others.nSequence'] = 'zero'
                     elif guard is None:
                         S['others.nSequence'] = 'zero'
@@ -351,11 +358,58 @@ class Legacy(object):
             if isinstance(s, ast.Assign) and isinstance(s.targets[0], ast.Name) and norm(s.value) == '%s.serialize()' % sc:
                 S['vars'][s.targets[0].id] = ('ser', (('scratch', self.snapshot(S)),))
                 continue
+            # s = CTransaction(txtmp.vin, txtmp.vout, ...).serialize(): a reconstruction from the scratch copy's fields
+            if isinstance(s, ast.Assign) and isinstance(s.targets[0], ast.Name) and isinstance(s.value, ast.Call) \
+                    and isinstance(s.value.func, ast.Attribute) and s.value.func.attr == 'serialize' and isinstance(s.value.func.value, ast.Call):
+                snap = self.reconstruction(s.value.func.value, S)
+                if isinstance(snap, str):
+                    return S, None, snap
+                S['vars'][s.targets[0].id] = ('ser', (('scratch', snap),))
+                continue
             return S, None, 'unmodelled edit of the scratch transaction: `%s`' % t[:90]
         return S, result, None
 
+    def reconstruction(self, call, S):
+        """state of the object built by <TxClass>(scratch.vin, scratch.vout, ...) -> snapshot dict or problem text"""
+        from .layout import LayoutEngine
+        repo, fi, sc = self.repo, self.fi, self.scratch
+        cv = repo.fold(call.func, fi.module)
+        tx = repo.classes.get('bitcoin.core.CTransaction')
+        if not (isinstance(cv, ClassRef) and tx is not None and repo.is_subclass(cv.info, tx)):
+            return 'unmodelled digest input `%s`' % norm(call)[:70]
+        eng = LayoutEngine(repo)
+        init, slots = eng.param_slots(cv.info)
+        ps = init.params[1:]
+        bound = {}
+        for i, a in enumerate(call.args):
+            if i < len(ps):
+                bound[ps[i]] = norm(a)
+        for k in call.keywords:
+            bound[k.arg] = norm(k.value)
+        snap = self.snapshot(S)
+        for pn in ps:
+            sl = slots.get(pn)
+            if sl is None:
+                continue
+            val = bound.get(pn)
+            if val == '%s.%s' % (sc, sl):
+                continue
+            if sl == 'wit':
+                if val is None:
+                    d = init.defaults().get(pn)
+                    dv = repo.fold(d, init.module) if d is not None else None
+                    snap['wit'] = 'empty' if (dv is None or (hasattr(dv, 'cls') and dv.cls.name == 'CTxWitness' and not dv.args)) else 'default:%s' % norm(d)
+                else:
+                    snap['wit'] = 'expr:%s' % val
+                continue
+            if sl in ('vin', 'vout'):
+                return 'the reconstruction takes %s from `%s`' % (sl, val)
+            snap[sl] = 'constructor default (field of the transaction not hashed)' if val is None else 'expr:%s' % val
+        return snap
+
     def snapshot(self, S):
-        return tuple(sorted((k, repr(v)) for k, v in S.items() if k not in ('tmp', 'vars', 'copied')))
+        import copy
+        return {k: copy.deepcopy(v) for k, v in S.items() if k not in ('tmp', 'vars')}
 
     def index_kind(self, e, S, path):
         """'own' if the expression is the signed input's index (inIdx or a copy of it)"""
@@ -429,7 +483,7 @@ class Legacy(object):
         want = {
             'own.scriptSig': 'subscript-minus-codeseparators', 'others.scriptSig': 'blank',
             'own.nSequence': 'orig', 'others.nSequence': 'orig' if base not in (2, 3) else 'zero',
-            'own.prevout': 'orig', 'others.prevout': 'orig', 'wit': 'empty',
+            'own.prevout': 'orig', 'others.prevout': 'orig', 'wit': 'empty', 'nVersion': 'orig', 'nLockTime': 'orig',
             'inputs': 'own-only' if acp else 'all',
             'outputs': 'none' if base == 2 else ('single' if base == 3 else 'all'),
         }
